@@ -28,6 +28,10 @@ def run(ctx):
             for k in range(2 if tier == "quick" else 3):
                 new, files = relayout.relayout(lines, rng, mnemonics, pr["files"])
                 twins_.append((pr, "relayout", dict(pr, src="\n".join(new) + "\n", files=files)))
+            # the last line with and without its final newline / with trailing blanks or an end-of-line comment
+            base_lines = list(lines)
+            twins_.append((pr, "no-final-newline", dict(pr, src="\n".join(base_lines))))
+            twins_.append((pr, "final-blank", dict(pr, src="\n".join(base_lines) + rng.choice([" ", " ; end", "\n\n", "\t"]))))
             top = [gen_program.render([st]) for st in pr["stmts"]]
             mv = relayout.move_to_include(top, rng)
             if mv:
@@ -108,6 +112,30 @@ def run(ctx):
                 s3.violate({"src": "\n".join(inline)}, "assembled", a.get("exc") or a.get("error"), "a plain program is rejected")
             elif outputs(a) != outputs(b):
                 s3.violate({"src": "\n".join(inline), "twin": "\n".join(twin), "part_zq.s": "\n".join(runl)}, "same output", (b["status"], b.get("exc")), "moving a run of statements that is used several times into one included file changes the output")
+        # a run moved into a file that is included from a loop body / a macro body expanded several times, and a file whose
+        # last line has no final newline
+        for i in range(10 if tier == "quick" else 100):
+            runl = [rng.choice(stm[:7]) for _ in range(rng.randrange(1, 4))]
+            last = rng.choice(["asl 5", "inc 3", "dec 7", "lsr 1", "rol 2", "nop", "lda #1"])
+            n_it = rng.randrange(2, 5)
+            shapes = [
+                (["*=0x008000", f".for k := 0, {n_it} {{"] + runl + [".db k", "}", "end:", ".dw end"],
+                 ["*=0x008000", f".for k := 0, {n_it} {{", ".include 'part_zq.s'", ".db k", "}", "end:", ".dw end"]),
+                (["*=0x008000", ".macro rep_zq(v) {"] + runl + [".db v", "}", "rep_zq(1)", "rep_zq(2)", "rep_zq(3)", "end:", ".dw end"],
+                 ["*=0x008000", ".macro rep_zq(v) {", ".include 'part_zq.s'", ".db v", "}", "rep_zq(1)", "rep_zq(2)", "rep_zq(3)", "end:", ".dw end"]),
+            ]
+            for inline, twin in shapes:
+                a = impl.assemble("\n".join(inline) + "\n", "low_rom", cwd=run_.tmp)
+                for ending in ("\n", "", " ", " ; c"):
+                    impl.write_files(run_.tmp, {"part_zq.s": "\n".join(runl + [last]) + ending}, None)
+                    a2 = impl.assemble("\n".join(inline[:2] + runl + [last] + inline[2 + len(runl):]) + "\n", "low_rom", cwd=run_.tmp)
+                    b = impl.assemble("\n".join(twin) + ending, "low_rom", cwd=run_.tmp)
+                    s3.cases += 1
+                    s3.count("include-in-repeated-body")
+                    if outputs(a2) is None or outputs(a2) != outputs(b):
+                        s3.violate({"src": "\n".join(inline[:2] + runl + [last] + inline[2 + len(runl):]), "twin": "\n".join(twin) + ending, "part_zq.s": "\n".join(runl + [last]) + ending},
+                                   "same output", (b["status"], b.get("exc"), (b.get("error") or "")[:100]), "moving statements into an included file used inside a repeated body (or dropping the final newline) changes the output")
+                        break
         s3.sample({"shape": "first: RUN between: … RUN { inner: RUN } done:"})
         return [s, s2, s3]
     finally:
